@@ -5,7 +5,7 @@ cd "$(dirname "$0")"
 export GOFLAGS=-mod=mod GOPROXY=off NO_COLOR=1
 unset GOTOOLCHAIN || true
 (cd extract && go run . -repo /repo -out ../lean/Gtree/Generated/Facts.lean)
-(cd translate && go run . -repo /repo -out ../lean/Gtree/Generated/Source.lean)
+(cd translate && go run . -repo /repo -out ../lean/Gtree/Generated/Source.lean -heapout ../lean/Gtree/Generated/SourceHeap.lean)
 (cd lean && lake build && lake build Gtree.Props.All)
 cp /repo/go.sum harness/go.sum
 (cd harness && go build -tags verif -o /dev/null .)
